@@ -16,7 +16,9 @@ use super::{
 pub struct BlockWriter {
     sbn: u32,
     bytes_left: usize,
+    content_length: Option<usize>,
     content_length_left: Option<usize>,
+    content_written: usize,
     cenc: lct::Cenc,
     decoder: Option<Box<dyn Decompress>>,
     buffer: Vec<u8>,
@@ -48,7 +50,9 @@ impl BlockWriter {
         BlockWriter {
             sbn: 0,
             bytes_left: transfer_length,
+            content_length,
             content_length_left: content_length,
+            content_written: 0,
             cenc,
             decoder: None,
             buffer: Vec::new(),
@@ -66,6 +70,13 @@ impl BlockWriter {
 
     pub fn get_md5(&self) -> Option<&str> {
         self.md5.as_deref()
+    }
+
+    /// `true` if the number of bytes written is the announced Content-Length
+    pub fn check_content_length(&self) -> bool {
+        self.content_length
+            .map(|length| length == self.content_written)
+            .unwrap_or(true)
     }
 
     pub fn write(
@@ -133,6 +144,7 @@ impl BlockWriter {
         if let Some(ctx) = self.md5_context.as_mut() {
             ctx.consume(data)
         }
+        self.content_written += data.len();
         writer.write(self.sbn, data, now)
     }
 
@@ -199,10 +211,17 @@ impl BlockWriter {
                 continue;
             }
 
+            // Never write more than the announced Content-Length
+            let size = match self.content_length_left {
+                Some(left) => size.min(left),
+                None => size,
+            };
+
             if let Some(ctx) = self.md5_context.as_mut() {
                 ctx.consume(&self.buffer[..size])
             }
 
+            self.content_written += size;
             writer.write(self.sbn, &self.buffer[..size], now)?;
 
             if let Some(content_length_left) = self.content_length_left.as_mut() {
